@@ -172,10 +172,12 @@ package values
 //@ requires arg: arg0 != nil
 //@ assigns F$values.dropWrapper$d, F$values.dropWrapper$v, F$values.dropWrapper$Once
 //@ ensures nonnil: result != nil
+//@ ensures drops: invkept(values.dropWrapper)
 //@ method PropertyValue
 //@ requires arg: arg0 != nil
 //@ assigns F$values.dropWrapper$d, F$values.dropWrapper$v, F$values.dropWrapper$Once
 //@ ensures nonnil: result != nil
+//@ ensures drops: invkept(values.dropWrapper)
 
 // every wrapper records the Go kind its methods rely on
 //@ typeinv values.arrayValue: kind(self.wrapperValue.value) == reflect.Array || kind(self.wrapperValue.value) == reflect.Slice
@@ -212,6 +214,7 @@ package values
 //@ panics nothing
 //@ assigns alloc F$values.dropWrapper$d, alloc F$values.dropWrapper$v, alloc F$values.dropWrapper$Once
 //@ ensures nonnil: result != nil
+//@ ensures drops: invkept(values.dropWrapper)
 //@ ensures nilIsNil: value == nil ==> result.Interface() == nil
 //@ ensures plain: plainv(value) ==> result.Interface() == value
 //@ ensures arrays: plainv(value) && (kind(value) == reflect.Array || kind(value) == reflect.Slice) ==> is(result, values.arrayValue)
@@ -391,3 +394,62 @@ package values
 //@ ensures count: len(result) == pl_len(rv_val(rv))
 //@ ensures keys: forall(i, 0, len(result), rv_valid(result[i]) && pl_mhas(rv_val(rv), rv_val(result[i])) && (rv_iface(result[i]) || tassignable(typeof(rv_val(result[i])), tkey(typeof(rv_val(rv))))))
 //@ ensures sorted: forall(i, 1, len(result), !(values.Less(rv_val(result[i]), rv_val(result[i-1])) || (!values.Less(rv_val(result[i-1]), rv_val(result[i])) && sprint1(rv_val(result[i])) < sprint1(rv_val(result[i-1])))))
+
+// ---- Drops (C18) -------------------------------------------------------------------------
+// A dropWrapper answers every question through the wrapper of its ToLiquid value.
+//@ typeinv values.dropWrapper: self.d != nil && (self.Once ==> self.v != nil)
+//@ func (*values.dropWrapper).Resolve
+//@ props C18 C01
+//@ panics nothing
+//@ requires recv: w != nil
+//@ assigns F$values.dropWrapper$v, F$values.dropWrapper$Once, alloc F$values.dropWrapper$d
+//@ ensures nonnil: result != nil
+//@ ensures drops: invkept(values.dropWrapper)
+
+//@ func (*values.dropWrapper).Interface
+//@ props C18 C01
+//@ panics nothing
+//@ requires recv: w != nil
+//@ assigns F$values.dropWrapper$d, F$values.dropWrapper$v, F$values.dropWrapper$Once
+//@ ghost r Val = nil
+//@ ghost out Val = nil
+//@ at call Resolve #1: r = result
+//@ at call Interface #1 before assert delegates: this == r
+//@ at call Interface #1: out = result
+//@ ensures same: result == out
+
+//@ func (*values.dropWrapper).Test
+//@ props C18 C01
+//@ panics nothing
+//@ requires recv: w != nil
+//@ assigns F$values.dropWrapper$d, F$values.dropWrapper$v, F$values.dropWrapper$Once
+//@ ghost r Val = nil
+//@ ghost out Bool = false
+//@ at call Resolve #1: r = result
+//@ at call Test #1 before assert delegates: this == r
+//@ at call Test #1: out = result
+//@ ensures same: result == out
+
+//@ func (*values.dropWrapper).IndexValue
+//@ props C18 C01
+//@ panics nothing
+//@ requires recv: w != nil && i != nil
+//@ assigns F$values.dropWrapper$d, F$values.dropWrapper$v, F$values.dropWrapper$Once
+//@ ghost r Val = nil
+//@ ghost out Val = nil
+//@ at call Resolve #1: r = result
+//@ at call IndexValue #1 before assert delegates: this == r && arg0 == i
+//@ at call IndexValue #1: out = result
+//@ ensures same: result == out
+
+//@ func (*values.dropWrapper).PropertyValue
+//@ props C18 C01
+//@ panics nothing
+//@ requires recv: w != nil && k != nil
+//@ assigns F$values.dropWrapper$d, F$values.dropWrapper$v, F$values.dropWrapper$Once
+//@ ghost r Val = nil
+//@ ghost out Val = nil
+//@ at call Resolve #1: r = result
+//@ at call PropertyValue #1 before assert delegates: this == r && arg0 == k
+//@ at call PropertyValue #1: out = result
+//@ ensures same: result == out
